@@ -529,8 +529,8 @@ func (e *Engine) posStr(p token.Pos, fn *ssa.Function) string {
 	if p.IsValid() {
 		ps := e.fset.Position(p)
 		f := ps.Filename
-		if i := strings.Index(f, "/repo/"); i >= 0 {
-			f = f[i+6:]
+		if strings.HasPrefix(f, repoDir+"/") {
+			f = f[len(repoDir)+1:]
 		}
 		return fmt.Sprintf("%s:%d", f, ps.Line)
 	}
